@@ -19,6 +19,7 @@ def main(argv=None):
     ap.add_argument('--wall', type=float)
     ap.add_argument('--digest')
     ap.add_argument('--no-selfcheck', action='store_true')
+    ap.add_argument('--no-evidence', action='store_true', help='side run: do not rewrite evidence/<id>.json')
     ap.add_argument('--show', type=int, help='print the generated case of one run index')
     ap.add_argument('-v', '--verbose', action='store_true')
     args = ap.parse_args(argv)
@@ -42,7 +43,7 @@ def main(argv=None):
         print(observe.jdump(out)[:20000])
         return 0
     return kernel.run_check(mod, args.tier, seed, runs=args.runs, jobs=args.jobs, wall=args.wall,
-                            selfcheck=not args.no_selfcheck, verbose=args.verbose)
+                            selfcheck=not args.no_selfcheck, verbose=args.verbose, evidence=not args.no_evidence)
 
 
 if __name__ == '__main__':
